@@ -1,7 +1,185 @@
-"""Tables re-read from /repo (extended per property as models need them)."""
+"""Tables re-read from /repo: regexes (as verified-matcher ASTs), code tables."""
 
 from __future__ import annotations
 
+import re._parser as sp
+
+VERBS = [" I", "RQ", "RP", " W"]
+
+
+def regex_to_coq(pattern: str, Fail) -> tuple[str, str]:  # noqa: N803
+    """Python regex -> (Rp, Rf): Coq terms of type Regex.re such that
+    re.match(pattern, s) succeeds  <->  some prefix of s is in L(Rp)  or  s is in L(Rf).
+
+    Rf collects the (top-level alternatives of the) pattern that end with '$', Rp the others.
+    Fail-closed: only the constructs listed in DESIGN.md section 3 are accepted.
+    """
+    tree = list(sp.parse(pattern))
+    if len(tree) == 1 and str(tree[0][0]) == "BRANCH":
+        branches = [list(b) for b in tree[0][1][1]]
+    else:
+        branches = [tree]
+
+    def cls(ranges):
+        return "(Cls [" + "; ".join(f"({a},{b})" for a, b in ranges) + "]%nat)"
+
+    def seq(p):
+        parts = [one(op, av) for op, av in p]
+        if not parts:
+            return "Eps"
+        out = parts[-1]
+        for x in reversed(parts[:-1]):
+            out = f"(Cat {x} {out})"
+        return out
+
+    def one(op, av):
+        op = str(op)
+        if op == "LITERAL":
+            if not 0 <= av < 128:
+                raise Fail(f"non-ascii literal in regex {pattern!r}")
+            return cls([(av, av)])
+        if op == "ANY":
+            return "AnyC"
+        if op == "IN":
+            rs = []
+            for o, a in av:
+                o = str(o)
+                if o == "LITERAL":
+                    rs.append((a, a))
+                elif o == "RANGE":
+                    rs.append((a[0], a[1]))
+                elif o == "CATEGORY" and str(a) == "CATEGORY_DIGIT":
+                    rs.append((48, 57))
+                else:
+                    raise Fail(f"unsupported class item {o} {a} in regex {pattern!r}")
+            return cls(rs)
+        if op == "SUBPATTERN":
+            return seq(av[3])
+        if op == "BRANCH":
+            alts = [seq(b) for b in av[1]]
+            out = alts[-1]
+            for x in reversed(alts[:-1]):
+                out = f"(Alt {x} {out})"
+            return out
+        if op in ("MAX_REPEAT", "MIN_REPEAT"):
+            lo, hi, sub = av
+            inner = seq(sub)
+            if str(hi) == "MAXREPEAT":
+                return f"(Cat (pow {int(lo)} {inner}) (Star {inner}))"
+            return f"(rep {int(lo)} {int(hi)} {inner})"
+        raise Fail(f"unsupported regex construct {op} in {pattern!r}")
+
+    rp, rf = [], []
+    for items in branches:
+        if items and str(items[0][0]) == "AT" and str(items[0][1]) == "AT_BEGINNING":
+            items = items[1:]
+        if items and str(items[-1][0]) == "AT" and str(items[-1][1]) == "AT_END":
+            rf.append(seq(items[:-1]))
+        else:
+            rp.append(seq(items))
+
+    def alt(xs):
+        if not xs:
+            return "Emp"
+        out = xs[-1]
+        for x in reversed(xs[:-1]):
+            out = f"(Alt {x} {out})"
+        return out
+
+    return alt(rp), alt(rf)
+
 
 def generate(write, Fail) -> None:  # noqa: N803
-    pass
+    from ramses_tx.const import COMMAND_REGEX  # noqa: PLC0415
+    from ramses_tx.ramses import CODES_SCHEMA  # noqa: PLC0415
+
+    out = ["From RV Require Import Regex.", ""]
+    rp, rf = regex_to_coq(COMMAND_REGEX.pattern, Fail)
+    if rp != "Emp":
+        raise Fail("COMMAND_REGEX is expected to end with '$'")
+    out.append(f"Definition COMMAND_RE : re := {rf}.")
+    rows = []
+    for code, d in sorted(CODES_SCHEMA.items()):
+        if not isinstance(code, str) or len(code) != 4:
+            raise Fail(f"unexpected code key {code!r}")
+        try:
+            zcode = int(code, 16)
+        except ValueError:
+            zcode = -1  # e.g. the puzzle code is hex too; anything else is not a wire code
+            raise Fail(f"non-hex code {code!r}") from None
+        for verb in VERBS:
+            if verb in d:
+                rp, rf = regex_to_coq(d[verb], Fail)
+                name = f"RX_{code}_{VERBS.index(verb)}"
+                out.append(f"Definition {name}_p : re := {rp}.")
+                out.append(f"Definition {name}_f : re := {rf}.")
+                rows.append(f"({zcode}, {VERBS.index(verb)}, {name}_p, {name}_f)")
+    out.append("")
+    out.append("(* (code, verb index [I;RQ;RP;W], Rp, Rf): re.match succeeds iff a prefix is in L(Rp) or the whole payload in L(Rf) *)")
+    out.append("Definition PAYLOAD_REGEXES : list (Z * Z * re * re) :=\n  [" + ";\n   ".join(rows) + "].")
+    out.append(f"Definition KNOWN_CODES : list Z := [{'; '.join(str(int(c, 16)) for c in sorted(CODES_SCHEMA))}].")
+    write("GenRegex.v", "\n".join(out) + "\n")
+    gen_code_tables(write, Fail)
+
+
+def _us(t) -> int:
+    return (t.days * 86400 + t.seconds) * 10**6 + t.microseconds
+
+
+def gen_code_tables(write, Fail) -> None:  # noqa: N803
+    from datetime import timedelta as td  # noqa: PLC0415
+
+    from ramses_tx import packet as P  # noqa: PLC0415
+    from ramses_tx.const import DEV_TYPE_MAP  # noqa: PLC0415
+    from ramses_tx.opentherm import PARAMS_DATA_IDS, SCHEMA_DATA_IDS, STATUS_DATA_IDS  # noqa: PLC0415
+    from ramses_tx.ramses import (  # noqa: PLC0415
+        CODE_IDX_ARE_COMPLEX,
+        CODE_IDX_ARE_NONE,
+        CODE_IDX_ARE_SIMPLE,
+        CODES_ONLY_FROM_CTL,
+        CODES_SCHEMA,
+        CODES_WITH_ARRAYS,
+        RQ_IDX_COMPLEX,
+        RQ_NO_PAYLOAD,
+        SZ_LIFESPAN,
+    )
+
+    def zl(xs):
+        return "[" + "; ".join(str(x) for x in xs) + "]"
+
+    def codes(xs):
+        return zl(sorted(int(str(c), 16) for c in xs))
+
+    out = []
+    rows = []
+    for code, v in CODES_WITH_ARRAYS.items():
+        if not (isinstance(v, list | tuple) and isinstance(v[0], int) and v[0] > 0):
+            raise Fail(f"CODES_WITH_ARRAYS[{code}] has an unexpected shape: {v!r}")
+        rows.append(f"({int(str(code), 16)}, {v[0]})")
+    out.append(f"Definition CODES_WITH_ARRAYS : list (Z * Z) := [{'; '.join(rows)}].")
+    rows = []
+    for code, v in sorted(CODES_SCHEMA.items()):
+        ls = v.get(SZ_LIFESPAN)
+        if isinstance(ls, td):
+            rows.append(f"({int(code, 16)}, {_us(ls)})")
+    out.append(f"Definition LIFESPAN_TABLE : list (Z * Z) := [{'; '.join(rows)}].")
+    for name in ("_TD_SECS_000", "_TD_SECS_360", "_TD_MINS_005", "_TD_MINS_060", "_TD_MINS_360", "_TD_DAYS_001"):
+        if not isinstance(getattr(P, name, None), td):
+            raise Fail(f"ramses_tx.packet.{name}: name not found (anchor missing)")
+        out.append(f"Definition PKT{name}_us : Z := {_us(getattr(P, name))}.")
+    # the OpenTherm lifespans are '<td> * 2.1' in the source: emit the products Python computes
+    out.append(f"Definition OT_SCHEMA_us : Z := {_us(P._TD_MINS_360 * 2.1)}.")
+    out.append(f"Definition OT_PARAMS_us : Z := {_us(P._TD_MINS_060 * 2.1)}.")
+    out.append(f"Definition OT_STATUS_us : Z := {_us(P._TD_MINS_005 * 2.1)}.")
+    out.append(f"Definition OT_SCHEMA_IDS : list Z := {zl(sorted(int(k) for k in SCHEMA_DATA_IDS))}.")
+    out.append(f"Definition OT_PARAMS_IDS : list Z := {zl(sorted(int(k) for k in PARAMS_DATA_IDS))}.")
+    out.append(f"Definition OT_STATUS_IDS : list Z := {zl(sorted(int(k) for k in STATUS_DATA_IDS))}.")
+    out.append(f"Definition CODE_IDX_ARE_COMPLEX : list Z := {codes(CODE_IDX_ARE_COMPLEX)}.")
+    out.append(f"Definition CODE_IDX_ARE_SIMPLE : list Z := {codes(CODE_IDX_ARE_SIMPLE)}.")
+    out.append(f"Definition CODE_IDX_ARE_NONE : list Z := {codes(CODE_IDX_ARE_NONE)}.")
+    out.append(f"Definition RQ_NO_PAYLOAD : list Z := {codes(RQ_NO_PAYLOAD)}.")
+    out.append(f"Definition RQ_IDX_COMPLEX : list Z := {codes(RQ_IDX_COMPLEX)}.")
+    out.append(f"Definition CODES_ONLY_FROM_CTL : list Z := {codes(CODES_ONLY_FROM_CTL)}.")
+    for nm in ("CTL", "UFC", "PRG", "DTS", "DT2", "OTB", "HGI", "HCW"):
+        out.append(f"Definition DEVTYPE_{nm} : Z := {int(getattr(DEV_TYPE_MAP, nm))}.")
+    write("GenTables.v", "\n".join(out) + "\n")
